@@ -219,6 +219,18 @@ Theorem C15_builtin_chain_left : forall b atlas s ts pos s1 s2 q,
   snd r2 = snd r12 /\ render (fst r1 ++ fst r2) q = render (fst r12) q.
 Proof. exact builtin_chain_left. Qed.
 
+(* the crate-private NULL_FONT (default font of MonoTextStyleBuilder::new(), Gen/FontTable.v `null_font`) *)
+Theorem C15_null_font_draw_returns_measured : forall idx atlas s text pos bl,
+  snd (draw_string (MFont (bf_font null_font) idx atlas) s text pos bl) =
+  snd (measure_string (bf_font null_font) s text pos bl).
+Proof. exact null_font_draw_returns_measured. Qed.
+
+Theorem C15_null_font_text_draw_returns_measured : forall idx atlas s ts pos text line p,
+  last_opt (text_lines (bf_font null_font) s ts pos text) = Some (line, p) ->
+  snd (text_draw (MFont (bf_font null_font) idx atlas) s ts pos text) =
+  snd (measure_string (bf_font null_font) s line p (t_base ts)).
+Proof. exact null_font_text_draw_returns_measured. Qed.
+
 (* ------------------------------------------------------------------ non-vacuity *)
 Example C15_example :
   let f := Font 8 6 4 3 0 2 (Deco 4 1) (Deco 1 1) in
